@@ -99,10 +99,44 @@ def handler(case):
         ops = [f"prof interp {flist(arr)} {m}"]
         return dict(ops=ops, impl=[[g / n if n else 0.0 for g in got]] if n else [None], viols=viols,
                     nontrivial=("prepare", len(arr) > m, n), tag="prepare")
+    if k == "prepare-prod":
+        # the whole production path: add_prod_data, prepare_prod_data (resampling), then set_prod in every increment:
+        # production = min(resampled profile value, rating)  -  capping and resampling do not commute
+        from relsad.network.components import Bus, Production
+        arr = [F(x) for x in case["arr"]]; m = case["m"]; pmax = F(case["pmax"])
+        b = Bus("B")
+        pr = Production("P", b, pmax=float(pmax), qmax=float(pmax) / 2)
+        pr.add_prod_data(pprod_data=np.array([float(x) for x in arr]), qprod_data=np.array([float(x) / 2 for x in arr]))
+        pr.prepare_prod_data(np.arange(m))
+        got, gotq = [], []
+        for i in range(m):
+            pr.set_prod(i)
+            got.append(float(b.pprod)); gotq.append(float(b.qprod))
+        case["_got"] = (got, gotq)
+        ops = [f"prof interp {flist(arr)} {m}"]
+        from .common import run_driver
+        out = run_driver(ops)[0]
+        vals = [] if out == "-" else [F(x) for x in out.split(",")]
+        scale = max([1.0] + [abs(float(v)) for v in vals])
+        for i, (v, g, gq) in enumerate(zip(vals, got, gotq)):
+            if abs(float(min(v, pmax)) - g) > 1e-12 * scale or abs(float(min(v / 2, pmax / 2)) - gq) > 1e-12 * scale:
+                viols.append(("prod.resampled-cap", f"profile {[float(x) for x in arr]} over {m} increments, rating {float(pmax)}: production in increment {i} is {g} (reactive {gq}), "
+                                                    f"the resampled profile value capped at the rating is {float(min(v, pmax))} ({float(min(v / 2, pmax / 2))})"))
+                break
+        return dict(ops=ops, impl=[[float(pmax)]], viols=viols, nontrivial=("prepare-prod", len(arr) > m, max(arr) > pmax, min(arr) > pmax), tag="prepare-prod")
     raise ValueError(k)
 
 
 def compare(case, m, i):
+    if case["kind"] == "prepare-prod":
+        vals = [] if m[0] == "-" else [F(x) for x in m[0].split(",")]
+        got, gotq = case["_got"]
+        pmax = F(case["pmax"])
+        if len(vals) != len(got):
+            return False
+        scale = max([1.0] + [abs(float(v)) for v in vals])
+        return all(abs(float(min(v, pmax)) - g) <= 1e-12 * scale and abs(float(min(v / 2, pmax / 2)) - gq) <= 1e-12 * scale
+                   for v, g, gq in zip(vals, got, gotq))
     if case["kind"] in ("interp", "prepare"):
         if i[0] is None:
             return True
@@ -144,6 +178,10 @@ def gen(rng, n):
         cases.append({"kind": "prod", "pp": [str(rand_frac(rng, 0, 3)) for _ in range(L)], "qp": [str(rand_frac(rng, 0, 3)) for _ in range(L)],
                       "pmax": str(rng.choice([F(1), F(10), rand_frac(rng, 0, 3)])), "qmax": str(rng.choice([F(1), F(0), rand_frac(rng, 0, 3)])), "i": rng.randrange(L)})
     for _ in range(n // 2):
+        L = rng.choice([2, 3, 6, 12, 24, 48]); m = rng.choice([1, 2, 4, 5, 6, 8, 12, 24, 30])
+        arr = [dyadic(rng, 0, 4) for _ in range(L)]
+        cases.append({"kind": "prepare-prod", "arr": [str(x) for x in arr], "m": m, "pmax": str(rng.choice([F(1), F(2), F(5, 2), F(10), max(arr) / 2 or F(1)]))})
+    for _ in range(n // 2):
         L = rng.choice([2, 6, 12, 24, 48]); m = rng.choice([1, 2, 4, 6, 8, 12, 24, 30])
         cases.append({"kind": "prepare", "arr": [str(dyadic(rng)) for _ in range(L)], "m": m, "n": rng.choice([1, 4, 8])})
     return cases
@@ -153,7 +191,7 @@ def run(res):
     rng = random.Random(res.seed * 1013 + 37)
     n = 150 if res.tier == "quick" else 2500
     res.rule = ("profiles of length 1..400 onto 1..400 increments (constant, linear, random dyadic values; equal, divisible and non-divisible ratios), "
-                "set_load_and_cost with 0-4 categories and 0..500 customers, set_prod around the rating, prepare+read per increment; "
+                "set_load_and_cost with 0-4 categories and 0..500 customers, set_prod around the rating, prepare+read per increment for loads and for production profiles that cross the rating (add, resample, read every increment: min(resampled, rating)); "
                 "non-trivial = distinct (kind, downsampling?, equal length?, single increment?, divisible?, constant?) signatures")
     run_cases(res, gen(rng, n), handler, compare)
 
